@@ -1,10 +1,10 @@
 (* C17 — Expiry removes only event keys, wholly, and only after the TTL.
    Property theorems only: each is closed by `exact <lemma>` and followed by Print Assumptions. *)
-From KB Require Import Base.Cases Model.Coder Model.CompactSys Model.C07Cases Model.C17Cases
-  Proofs.Coder Proofs.CompactSafe Proofs.CompactWf Proofs.CompactPass Proofs.CompactExpiry Proofs.CompactTtl.
+From KB Require Import Base.Cases Model.Coder Model.CompactSys Model.C07Cases Model.C07Valid Model.C17Cases Model.C17Valid
+  Proofs.Coder Proofs.CompactSafe Proofs.CompactWf Proofs.CompactPass Proofs.CompactExpiry Proofs.CompactRanges Proofs.CompactTtl Proofs.CompactScan Proofs.CompactExpirySafe Proofs.CompactValid Proofs.CompactValid17.
 Local Open Scope N_scope.
 
-(* C17_only_events + C17_not_young, scanner path, at full strength, for every store, mark queue, wall time,
+(* C17_only_events + C17_not_young, scanner path, for every store, mark queue, wall time,
    fault placement and interleaving: with the scanner configured by the backend (EventsPrefix =
    <prefix>/events/), the timeout revision is 0 or the revision of a mark at least ttl old (and 0 on engines
    with native TTL); every engine delete of scanner.Compact is a compaction target (C07) or targets a stored
@@ -16,6 +16,19 @@ Theorem C17_only_events : forall prefix sup ttl now R lo hi q V oc,
                    \/ compaction_target R (ds_target s)) (d_trace d).
 Proof. exact scanner_only_events. Qed.
 Print Assumptions C17_only_events.
+(* C17_only_events at full strength: in a pass with expiry ON - any outcomes of the engine deletes, any writers' commits
+   between them (version records above R, one value per (key, revision)) - every engine delete targets a record of an
+   Event key at most as new as the timeout revision, or satisfies C07_safe_remove's premise in the store of that moment
+   (ds_safe = premiseb, C07_premiseb_sound): no record of any other key is removed unless C07 allows it. (C07_pass's
+   invariant is carried without its comparison of the store with the ghost store, which expiry breaks.) *)
+Theorem C17_only_events_safe : forall prefix sup ttl now R lo hi q V oc,
+  store_ok V -> uniq_ver (V ++ flat_map fst oc) ->
+  (forall k r v, In (RVer k r v) (flat_map fst oc) -> R < r) ->
+  let '(q', tr, d) := scanner_compact (events_prefix prefix) sup ttl now R lo hi q (init_d V oc) in
+  Forall (fun s => (is_event_key prefix (rkey (ds_target s)) = true /\ rec_rev (ds_target s) <= tr /\ tr <> 0)
+                   \/ ds_safe s = true) (d_trace d).
+Proof. exact scanner_expiry_safe. Qed.
+Print Assumptions C17_only_events_safe.
 
 (* the same for any EventsPrefix (empty = nothing expires), with the bound on the timeout revision *)
 Theorem C17_scanner_expiry_targets : forall evp sup ttl now R lo hi q V oc,
@@ -126,7 +139,14 @@ Print Assumptions C17_whole_engine_ttl.
    2 s TTL, replaced 1 s later by an update: the update's index is still there when the create's timer has fired
    (the former defect C17-F2, fixed: the timer used to delete whatever the key held); left alone, the create's own
    index goes at 2 s *)
-Theorem C17_memkv_ttl_own_record :
+Theorem C17_memkv_ttl_own_record : forall now s y,
+  In y (ts_store s) ->
+  (In y (ts_store (advance EMem now s)) <-> ~ exists p, In p (ts_timers s) /\ fst p <= now /\ snd p = t_rec y).
+Proof. exact emem_timer_own_record. Qed.
+Print Assumptions C17_memkv_ttl_own_record.
+
+(* the former witness of C17-F2 *)
+Example C17_ex_memkv_ttl_own_record :
   let s1 := put_ent EMem 0 2000 (RIdx k_event 5 false) (mkTS [] []) in
   let s2 := put_ent EMem 1000 0 (RIdx k_event 6 false) s1 in
   map t_rec (ts_store (advance EMem 1300 s2)) = [RIdx k_event 6 false] /\
@@ -134,13 +154,12 @@ Theorem C17_memkv_ttl_own_record :
   map t_rec (ts_store (advance EMem 1300 s1)) = [RIdx k_event 5 false] /\
   map t_rec (ts_store (advance EMem 2500 s1)) = [].
 Proof. vm_compute. repeat split. Qed.
-Print Assumptions C17_memkv_ttl_own_record.
 
 (* the executable oracle accepts what the model produces: the TTL-choice cases *)
-Theorem C17_oracle_sound_ttl_choice_partial : forall prefix ettl k ttls,
+Theorem C17_oracle_sound_ttl_choice : forall prefix ettl k ttls,
   c17_check (KTtlChoice prefix ettl k ttls) = true -> c17_oracle (KTtlChoice prefix ettl k ttls) = None.
 Proof. exact c17_oracle_sound_ttl_choice. Qed.
-Print Assumptions C17_oracle_sound_ttl_choice_partial.
+Print Assumptions C17_oracle_sound_ttl_choice.
 
 (* ... and for the TTL arguments of every Create / Update / Delete, whatever Lease the request carries *)
 Theorem C17_oracle_sound_ttl_write : forall prefix ettl op lease k ttls,
@@ -191,6 +210,77 @@ Theorem C17_oracle_expiry_tests : forall prefix sup ttl now R lo hi q V oc marks
                               negb (rec_rev (ds_target s) <=? m) = false)) (d_trace d).
 Proof. exact scanner_expiry_tests. Qed.
 Print Assumptions C17_oracle_expiry_tests.
+
+(* ---------- scanner histories (KScan) ---------- *)
+
+(* what a pass without interleaved writers and engine faults removes, and nothing else: every record of the store it started
+   from is still stored, or lies in the scanned range and either is an expiry target (a record of a key under the events
+   prefix, at most as new as the timeout revision) or is explained by the compaction proper (a version with a newer version
+   <= R, a tombstone <= R, a flagged index <= R - the oracle's `explained`); nothing appears. In particular the only live
+   version of a key outside <prefix>/events/ is never removed *)
+Theorem C17_pass_removed : forall evp sup ttl now R lo hi q V0,
+  store_ok V0 -> wfd V0 ->
+  let '(q', tr, dd) := scanner_compact evp sup ttl now R lo hi q (init_d V0 []) in
+  (forall y, In y (d_store dd) -> In y V0) /\
+  (forall y, In y V0 -> In y (d_store dd) \/
+     ((expiry_target evp tr y \/ explained R V0 y = true) /\ in_range lo hi y = true)).
+Proof. exact pass_removed. Qed.
+Print Assumptions C17_pass_removed.
+
+(* such a pass, judged by the oracle's pass_verdict (every missing record explained or an Event record not younger than a mark
+   that is TTL old, an expired index gone with every version of its key - from the relaxed well-formedness: no version is
+   newer than the index -, nothing appeared): nothing to report, and the mark queue stays within the oracle's marks *)
+Theorem C17_pass_sound : forall prefix sup ttl now R lo hi q V0 marks,
+  store_ok V0 -> wfd V0 -> incl q marks ->
+  let '(q', tr, dd) := scanner_compact (events_prefix prefix) sup ttl now R lo hi q (init_d V0 []) in
+  pass_verdict prefix ttl V0 (sort_by rec_ltb (d_store dd)) (marks ++ [(R, now)]) now R [] = None /\
+  incl q' (marks ++ [(R, now)]).
+Proof. exact pass_sound. Qed.
+Print Assumptions C17_pass_sound.
+
+(* a whole history of writes and passes (direct or through Backend.Compact), then the probes Get / Update at the revision read /
+   Create per key: if every pass is plain and starts from a store with records in distinct slots that satisfies the relaxed
+   well-formedness (scan_validb, decided on the observed dumps), and so does the final store (scan_final_validb), then a
+   history the model reproduces has nothing for the oracle to report *)
+Theorem C17_oracle_sound_scan : forall prefix ttl sup pre steps fin extra,
+  scan_validb pre steps = true -> scan_final_validb (store_after pre steps) fin = true ->
+  c17_check (KScan prefix ttl sup pre steps fin extra) = true ->
+  c17_oracle (KScan prefix ttl sup pre steps fin extra) = None.
+Proof. exact kscan_sound. Qed.
+Print Assumptions C17_oracle_sound_scan.
+
+(* validity is decided and evaluated: what the shards compute on every generated case, c17_check_v = c17_validb && c17_check
+   (for the engine-TTL cases: wall times non-decreasing, every write with its own larger revision, the store the history
+   ends in well-formed (decided by wfdb) and below the probes' revisions), puts every case of a claimed kind - TTL choice,
+   scanner histories without a writer inside a pass, TTL arguments of a write, engine TTL; the scanner histories with an update inside a pass (the window scripts) are not claimed - under its soundness theorem. A generated
+   case that is not valid counts as a mismatch of the run *)
+Theorem C17_oracle_sound_evaluated : forall c, c17_check_v c = true -> c17_claimed c = true -> c17_oracle c = None.
+Proof. exact c17_oracle_sound_v. Qed.
+Print Assumptions C17_oracle_sound_evaluated.
+
+(* a compaction through Backend.Compact(req) at committed revision cur (step SCompactReq): pass and mark are at
+   clamp cur 0 req, never above the committed revision - a request ahead of it cannot cover revisions not handed out yet -
+   and C17_oracle_marks / C17_oracle_expiry_tests hold for that step as they do for a direct scanner.Compact *)
+Theorem C17_oracle_marks_req : forall evp sup ttl now cur req lo hi q d0 marks,
+  incl q marks ->
+  let R := clamp cur 0 req in
+  R <= cur /\
+  let '(q', tr, d) := scanner_compact evp sup ttl now R lo hi q d0 in
+  incl q' (marks ++ [(R, now)]) /\
+  (tr = 0 \/ exists m, old_mark_rev ttl now (marks ++ [(R, now)]) = Some m /\ tr <= m).
+Proof. exact scanner_marks_req. Qed.
+Print Assumptions C17_oracle_marks_req.
+
+Theorem C17_oracle_expiry_tests_req : forall prefix sup ttl now cur req lo hi q V oc marks,
+  incl q marks ->
+  let R := clamp cur 0 req in
+  let '(q', tr, d) := scanner_compact (events_prefix prefix) sup ttl now R lo hi q (init_d V oc) in
+  Forall (fun s => compaction_target R (ds_target s) \/
+                   (In (ds_target s) V /\ negb (is_event_key prefix (rkey (ds_target s))) = false /\
+                    exists m, old_mark_rev ttl now (marks ++ [(R, now)]) = Some m /\
+                              negb (rec_rev (ds_target s) <=? m) = false)) (d_trace d).
+Proof. exact scanner_expiry_tests_req. Qed.
+Print Assumptions C17_oracle_expiry_tests_req.
 
 (* ---------- non-vacuity ---------- *)
 Example C17_ex_run :
@@ -313,3 +403,57 @@ Example C17_ex_memkv_update_survives :
   ttl_run EMem pfx 2000 (mkTS [] []) evs = Some [RIdx k_event 6 false; RVer k_event 6 [2]] /\
   c17_oracle (KEngineTtl EMem pfx 2000 evs [(k_event, Some (6, [2]), WFalse)]) = None.
 Proof. cbv zeta. split; [cbn; repeat split; lia|]. split; vm_compute; reflexivity. Qed.
+
+(* a request 50 revisions ahead of the committed one leaves its mark at the committed revision *)
+Example C17_ex_request_ahead : clamp 102 0 152 = 102 /\ clamp 104 0 0 = 104 /\ clamp 104 0 101 = 101.
+Proof. vm_compute. repeat split. Qed.
+
+Example C17_ex_validb :
+  let evs := [TCreate 0 k_event [1] 5; TDelete 150 k_event 6; TCreate 300 k_event [2] 7; TDump 2900 [RVer k_event 6 tombstone]] in
+  let c := KEngineTtl EBadger pfx 2000 evs [(k_event, None, WOk)] in
+  c17_validb c = true /\ c17_check_v c = true /\ c17_claimed c = true /\
+  c17_check_v (KTtlWrite pfx 2 1 5 k_plain [0; 0]) = true /\ c17_claimed (KScan pfx 300 false [] [SCompact 0 7 [] [] [([], OOk)] ([], [])] [] 0) = false.
+Proof. vm_compute. repeat split. Qed.
+
+(* a scanner history under C17_oracle_sound_scan: the Event expires at the second pass, the look-alike and the plain key stay *)
+Definition exS2 : store := sort_by rec_ltb exS.
+Example C17_ex_scan_case :
+  let lo := pfx ++ [47] in let hi := pfx ++ [48] in
+  let c := KScan pfx 300 false exS2 [SCompact 0 7 lo hi [] ([], []); SCompact 400 9 lo hi [] ([0; 1], [])]
+             [(k_event, None, None, WOk); (k_plain, Some (7, [3]), Some WOk, WFalse)] 0 in
+  c17_claimed c = true /\ c17_validb c = true /\ c17_check_v c = true /\ c17_oracle c = None.
+Proof. vm_compute. repeat split. Qed.
+
+(* hypotheses of the engine-TTL theorems on concrete states; ttl = 0 pops every mark at once *)
+Example C17_ex_badger_hyps :
+  let s := put_ent EBadger 0 2000 (RVer k_event 5 [1]) (put_ent EBadger 0 2000 (RIdx k_event 5 false) (mkTS [] [])) in
+  2000 <> 0 /\ 0 + 2000 <= 2900 /\
+  In (mkT (RIdx k_event 5 false) 0 2000) (ts_store s) /\ ~ In (mkT (RIdx k_event 5 false) 0 2000) (ts_store (advance EBadger 2900 s)) /\
+  map t_rec (ts_store (advance EBadger 1900 s)) = [RIdx k_event 5 false; RVer k_event 5 [1]].
+Proof. cbv zeta. split; [discriminate|]. split; [vm_compute; discriminate|]. split; [vm_compute; auto|]. split; [vm_compute; intros []|vm_compute; reflexivity]. Qed.
+Example C17_ex_memkv_hyps :
+  let s := put_ent EMem 1000 0 (RIdx k_event 6 false) (put_ent EMem 0 2000 (RIdx k_event 5 false) (mkTS [] [])) in
+  In (mkT (RIdx k_event 6 false) 1000 0) (ts_store s) /\
+  ~ (exists p, In p (ts_timers s) /\ fst p <= 2500 /\ snd p = t_rec (mkT (RIdx k_event 6 false) 1000 0)).
+Proof.
+  cbv zeta. split; [vm_compute; auto|]. intros (p & Hp & _ & Ep). vm_compute in Hp. destruct Hp as [<-|[]]. discriminate Ep.
+Qed.
+Example C17_ex_ttl_zero : pop_marks 0 5 [(7, 9); (8, 3)] 0 = (8, []) /\ incl [(7, 0)] [(7, 0); (9, 400)].
+Proof. split; [vm_compute; reflexivity|intros x [<-|[]]; left; reflexivity]. Qed.
+(* the hypotheses of C17_index_removed_only_as_seen: a writer replaces the index just before the compare-and-delete *)
+Example C17_ex_index_as_seen :
+  let d := mkD exS exS [] [([RIdx k_event 8 false; RVer k_event 8 [9]], OOk)] false [] in
+  d_oc d = ([RIdx k_event 8 false; RVer k_event 8 [9]], OOk) :: [] /\ d_dead d = false /\ skipped (d_lf d) k_event = false /\
+  In (RIdx k_plain 7 false) (apply_env [RIdx k_event 8 false; RVer k_event 8 [9]] (d_store d)) /\
+  In (RIdx k_event 8 false) (d_store (engine_delete 9 KDelCur (RIdx k_event 5 false) d)).
+Proof. vm_compute. repeat split; auto 12. Qed.
+
+(* the hypotheses of C17_only_events_safe on the example pass, and what it concludes there *)
+Example C17_ex_only_events_safe :
+  store_ok exS2 /\ uniq_ver (exS2 ++ flat_map fst (@nil (list rec * outcome))) /\
+  let '(_, tr, d) := scanner_compact (events_prefix pfx) false 300 400 9 (pfx ++ [47]) (pfx ++ [48]) [(7, 0)] (init_d exS2 []) in
+  tr = 7 /\ map (fun s => (ds_target s, ds_safe s)) (rev (d_trace d)) = [(RIdx k_event 5 false, true); (RVer k_event 5 [1], false)].
+Proof.
+  split; [apply store_okb_spec; vm_compute; reflexivity|]. split; [|vm_compute; split; reflexivity].
+  rewrite app_nil_r. apply uniq_verb_spec. vm_compute. reflexivity.
+Qed.
